@@ -689,11 +689,22 @@ def check_go(case):
             classes.append('read:' + w)
         elif s in ('append_dup', 'extend_dup'):
             # growth that must be rejected, issued without observing the index first; the index must stay as it is
-            if not model or (kind == 'ih' and s == 'extend_dup'):
+            if not model:
                 continue
             dup = model[stp['v'] % n]
             if s == 'append_dup':
                 r = lib(ix.append, dup)
+            elif kind == 'ih':
+                # another hierarchy whose first outermost label is new and whose second one is held: refused as a whole
+                a = _go_fresh(kind, model, stp['v'], len(model[0]) - 1)
+                if a is None:
+                    continue
+                try:
+                    ctors = [t._IMMUTABLE_CONSTRUCTOR if not t.STATIC else t for t in ix.index_types.values]
+                    other = sf.IndexHierarchy.from_labels([a, tuple(dup)], index_constructors=ctors)
+                except Exception:  # noqa: BLE001
+                    continue
+                r = lib(ix.extend, other)
             else:
                 a = _go_fresh(kind, model, stp['v'], 0)
                 if a is None:
